@@ -3,6 +3,7 @@ package sim
 import (
 	"fmt"
 	"reflect"
+	"runtime/debug"
 	"sort"
 	"strings"
 
@@ -63,6 +64,7 @@ type Result struct {
 	Ret    interface{} // normalised (float64-based JSON) return value; Documents by GetValue()
 	Err    error       // error returned by the call (nil interface if none)
 	Panic  interface{} // recovered panic, if any
+	Stack  string      // orda frames of the panic's stack
 	NavErr error       // navigation to the child document failed (call not executed)
 	IsNil  bool        // the call returned a nil value / nil Document
 }
@@ -70,7 +72,7 @@ type Result struct {
 func (r Result) String() string {
 	switch {
 	case r.Panic != nil:
-		return fmt.Sprintf("PANIC(%v)", r.Panic)
+		return fmt.Sprintf("PANIC(%v at %s)", r.Panic, r.Stack)
 	case r.NavErr != nil:
 		return fmt.Sprintf("NAVERR(%v)", r.NavErr)
 	case r.Err != nil:
@@ -155,7 +157,7 @@ func Navigate(root orda.DocumentInTx, path []Step) (doc orda.DocumentInTx, err e
 func Exec(kind Kind, view interface{}, c Call) (res Result) {
 	defer func() {
 		if p := recover(); p != nil {
-			res = Result{Panic: p}
+			res = Result{Panic: p, Stack: ordaFrames(debug.Stack())}
 		}
 	}()
 	switch kind {
@@ -488,3 +490,17 @@ func ResultOfDoc(d orda.Document, e interface{}) Result {
 
 // IsNilDoc tells whether a Document interface holds nothing usable.
 func IsNilDoc(d orda.Document) bool { return isNilIface(d) }
+
+// ordaFrames keeps the first few stack lines that name orda source files.
+func ordaFrames(stack []byte) string {
+	var out []string
+	for _, l := range strings.Split(string(stack), "\n") {
+		if strings.Contains(l, "/repo/") && !strings.Contains(l, "harness") {
+			out = append(out, strings.TrimSpace(strings.Split(l, " +0x")[0]))
+			if len(out) == 4 {
+				break
+			}
+		}
+	}
+	return strings.Join(out, " < ")
+}
